@@ -63,6 +63,22 @@ CHECKS["C20"] = (
     "for <= 400 lines, fitted growth exponent of steps vs N <= 2.5 per family.",
     "bound constants are ours (far above a linear walk); shapes are sampled, not all call graphs.",
     "DESIGN.md §8 C20")
+CHECKS["C18"] = (
+    "exploration",
+    "runtime monitoring: equality monitor over (source, path, options) keys across processes / "
+    "threads / call orders / working directories / environments; strace syscall monitor "
+    "bracketed by marker syscalls; ThreadSanitizer and Miri runs in the thorough tier",
+    "247 keys (corpus + generated many-struct/many-group shaders x 6 option sets x embedded / "
+    "3 include paths) are generated in 9 (quick) / 25 (thorough) processes with fresh hash "
+    "seeds, shuffled orders, two working directories (one holding files named like the include "
+    "paths), three environments, on 16 threads and back to back; all results per key must be "
+    "byte-identical. One process runs under strace: between the driver's marker syscalls the "
+    "calling thread may only use memory-management/futex/getrandom/clock syscalls, plus the "
+    "pipe/spawn/wait protocol (own descriptors only, openat only of /dev/null, exec only of "
+    "rustfmt) when the formatter is on. Thorough: TSan build x5 runs, Miri with 4 seeds.",
+    "environment reads are invisible to strace (covered differentially); byte identity with "
+    "rustfmt on assumes no rustfmt.toml in the working directory.",
+    "DESIGN.md §8 C18")
 
 NOT_YET = {
 }
